@@ -20,8 +20,16 @@ pub struct Settle {
     fired: Arc<AtomicU64>,
     notify: Arc<Notify>,
     gen: u64,
+    /// threads of the harness itself (everything that exists when the case starts, and the ticker)
+    own: std::collections::HashSet<String>,
     pub rounds: u64,
     pub ticks: u64,
+}
+
+fn tids() -> Vec<String> {
+    std::fs::read_dir("/proc/self/task")
+        .map(|d| d.flatten().map(|e| e.file_name().to_string_lossy().into_owned()).collect())
+        .unwrap_or_default()
 }
 
 impl Settle {
@@ -30,14 +38,19 @@ impl Settle {
         let fired = Arc::new(AtomicU64::new(0));
         let notify = Arc::new(Notify::new());
         let (f2, n2) = (fired.clone(), notify.clone());
+        let (tid_tx, tid_rx) = std::sync::mpsc::channel::<()>();
         std::thread::spawn(move || {
+            let _ = tid_tx.send(());
             while let Ok((g, micros)) = tick_rx.recv() {
                 std::thread::sleep(Duration::from_micros(micros));
                 f2.store(g, Ordering::SeqCst);
                 n2.notify_one();
             }
         });
-        Settle { tick_tx, fired, notify, gen: 0, rounds: 0, ticks: 0 }
+        // the ticker is running now: every thread that exists at this point belongs to the harness
+        let _ = tid_rx.recv();
+        let own = tids().into_iter().collect();
+        Settle { tick_tx, fired, notify, gen: 0, own, rounds: 0, ticks: 0 }
     }
 
     /// true: the paused clock auto-advanced (runtime idle, no helper thread outstanding);
@@ -76,41 +89,59 @@ impl Settle {
             prev = now;
             if idle {
                 // a plain std::thread (remoc's one-time thread test) does not inhibit auto-advance
-                calm = if same && threads_quiet() { calm + 1 } else { 0 };
+                calm = if same && self.threads_quiet() { calm + 1 } else { 0 };
                 if calm >= 2 {
                     return true;
                 }
             } else {
                 self.ticks += 1;
-                let quiet = threads_quiet();
+                let quiet = self.threads_quiet();
                 calm = if same && quiet { calm + 1 } else { 0 };
                 if calm >= 3 {
                     return true;
                 }
             }
         }
+        if std::env::var("VH_DEBUG").is_ok() {
+            eprintln!("barrier gave up: last snapshot {:?} threads {}", prev, thread_states());
+        }
         false
     }
 }
 
-/// All other threads of the process are sleeping (not running, not in uninterruptible wait).
-pub fn threads_quiet() -> bool {
-    let me = std::fs::read_link("/proc/thread-self")
-        .ok()
-        .and_then(|p| p.file_name().map(|s| s.to_string_lossy().into_owned()));
-    let Ok(dir) = std::fs::read_dir("/proc/self/task") else { return true };
-    for e in dir.flatten() {
-        let tid = e.file_name().to_string_lossy().into_owned();
-        if Some(&tid) == me.as_ref() {
-            continue;
-        }
-        let Ok(stat) = std::fs::read_to_string(e.path().join("stat")) else { continue };
-        if let Some(pos) = stat.rfind(')') {
-            let state = stat[pos + 1..].trim_start().chars().next().unwrap_or('S');
+impl Settle {
+    /// Every thread that is not the harness's own -- tokio's blocking pool, which runs remoc's
+    /// (de)serializer closures, and remoc's one-time thread test -- is sleeping: not running, not
+    /// runnable (a freshly created or just woken thread counts as busy), not in uninterruptible wait.
+    /// The harness's own threads are not looked at: on a loaded machine a woken ticker may stay
+    /// runnable for milliseconds.
+    pub fn threads_quiet(&self) -> bool {
+        let Ok(dir) = std::fs::read_dir("/proc/self/task") else { return true };
+        for e in dir.flatten() {
+            if self.own.contains(&*e.file_name().to_string_lossy()) {
+                continue;
+            }
+            let Ok(stat) = std::fs::read_to_string(e.path().join("stat")) else { continue };
+            let Some(b) = stat.rfind(')') else { continue };
+            let state = stat[b + 1..].trim_start().chars().next().unwrap_or('S');
             if state == 'R' || state == 'D' {
                 return false;
             }
         }
+        true
     }
-    true
+}
+
+pub fn thread_states() -> String {
+    let mut out = String::new();
+    if let Ok(dir) = std::fs::read_dir("/proc/self/task") {
+        for e in dir.flatten() {
+            if let Ok(stat) = std::fs::read_to_string(e.path().join("stat")) {
+                if let (Some(a), Some(b)) = (stat.find('('), stat.rfind(')')) {
+                    out.push_str(&format!("[{} {}]", &stat[a + 1..b], stat[b + 1..].trim_start().chars().next().unwrap_or('?')));
+                }
+            }
+        }
+    }
+    out
 }
